@@ -21,3 +21,9 @@ def nontrivial(case, s, infos):
 
 
 check_case, run, replay = gfi_hist.make_prop(CFG, CHECKS, nontrivial=nontrivial, examples=(8, 8))
+
+
+def probes(ctx):
+    from vpbt import gfi_probes
+
+    gfi_probes.run_probes(ctx, ['switch_index_change_weight', 'switch_retdiff_tangent_mismatch', 'switch_backward_is_branch0'])
